@@ -156,8 +156,51 @@ func c06R2(c *Ctx, id string) {
 		if n == 0 {
 			c.check(id+":tx.pages-insert:none", nil, 0, "an insertion into tx.pages exists", false, "no MapUpdate on Tx.pages found")
 		}
+		// every page tx.allocate hands out is registered in tx.pages (otherwise it is never written)
+		ta := c.fn("bbolt.(*Tx).allocate")
+		{
+			isIns := func(in ssa.Instruction) bool {
+				mu, ok := in.(*ssa.MapUpdate)
+				return ok && pathOf(mu.Map).Has(pagesF)
+			}
+			r := reach(nil, []*ssa.BasicBlock{ta.Blocks[0]}, isIns, nil)
+			bad := ""
+			for _, ret := range successReturns(ta) {
+				if r[ret] {
+					bad = c.P.Position(ret.Pos())
+				}
+			}
+			c.check(id+":(*Tx).allocate:registers-page", ta, ta.Pos(), "every success return of tx.allocate has put the page into tx.pages (so tx.write will write it)", bad == "", "success return at "+bad+" without registering the page")
+		}
 		// db.allocate: ids come from freelist.Allocate or the high-water mark
 		da := c.fn("bbolt.(*DB).allocate")
+		{
+			// the page records how many pages it spans: overflow = count-1, before any return
+			ovs := plainCallsIn(da, "common.(*Page).SetOverflow")
+			ok := len(ovs) == 1
+			detail := fmt.Sprintf("%d SetOverflow calls", len(ovs))
+			if ok {
+				for _, k := range []int64{1, 2, 7} {
+					ev := &Evaluator{Param: func(p *ssa.Parameter) (V, bool) {
+						if p.Name() == "count" {
+							return iV(k), true
+						}
+						return unkV, false
+					}}
+					if got, isI := ev.ValueAtEntry(ovs[0].Call.Args[1]).Int(); !isI || got != k-1 {
+						ok = false
+						detail = fmt.Sprintf("count=%d gives overflow %v, want %d", k, ev.ValueAtEntry(ovs[0].Call.Args[1]), k-1)
+					}
+				}
+				for _, ret := range successReturns(da) {
+					if !dominates(ovs[0], ret) {
+						ok = false
+						detail = "a page is returned without its overflow count"
+					}
+				}
+			}
+			c.check(id+":(*DB).allocate:overflow=count-1", da, da.Pos(), "an allocated run records overflow = count-1 before it is returned (tx.write writes, and Free frees, exactly the run)", ok, detail)
+		}
 		setIDs := plainCallsIn(da, "common.(*Page).SetId")
 		var fromFL, fromHWM *ssa.Call
 		bad := ""
